@@ -190,7 +190,7 @@ fn msm_toy251_terms_0_1() {
     assert!(r1 == e * s);
 }
 
-// @harness name=msm_toy251_terms_2 props=C01,C14 kind=bounded bound="2 terms; all scalars, all points (identity included)" tier=quick backs="vartime_multiscalar_mul.ensures: result == s1*E1 + s2*E2; no panic" expect=pass
+// @harness name=msm_toy251_terms_2 props=C01,C14 kind=bounded bound="2 terms; all scalars, all points (identity included)" tier=thorough backs="vartime_multiscalar_mul.ensures: result == s1*E1 + s2*E2; no panic" expect=pass
 #[kani::proof]
 #[kani::unwind(12)]
 fn msm_toy251_terms_2() {
@@ -210,7 +210,7 @@ fn msm_toy251_terms_3() {
 
 // optional_multiscalar_mul: None for a None element or for unequal lengths (this is what makes the
 // `expect` in vartime_multiscalar_mul fire when the caller violates "equal lengths").
-// @harness name=msm_toy251_optional_none props=C14 kind=bounded bound="lengths (1,1) with a None element, (2,1) and (1,2)" tier=quick backs="optional_multiscalar_mul returns None iff an element is None or the lengths differ (so vartime_multiscalar_mul panics exactly on unequal lengths: requires equal lengths at both call sites)" expect=pass
+// @harness name=msm_toy251_optional_none props=C14 kind=bounded bound="lengths (1,1) with a None element, (2,1) and (1,2)" tier=thorough backs="optional_multiscalar_mul returns None iff an element is None or the lengths differ (so vartime_multiscalar_mul panics exactly on unequal lengths: requires equal lengths at both call sites)" expect=pass
 #[kani::proof]
 #[kani::unwind(12)]
 fn msm_toy251_optional_none() {
@@ -222,7 +222,7 @@ fn msm_toy251_optional_none() {
 }
 
 // Negative control: unequal lengths through vartime_multiscalar_mul -> the `expect` panics -> must FAIL.
-// @harness name=msm_negctl_unequal_lengths_panics props=C14 kind=bounded bound="lengths (2,1)" tier=quick backs="vacuity guard: the panic check is live (expect(\"all elements should be Some\") fires on unequal lengths)" expect=fail
+// @harness name=msm_negctl_unequal_lengths_panics props=C14 kind=bounded bound="lengths (2,1)" tier=quick backs="vacuity guard: the panic check is live (the expect in vartime_multiscalar_mul fires on unequal lengths)" failmsg="all elements should be Some" expect=fail
 #[kani::proof]
 #[kani::unwind(12)]
 fn msm_negctl_unequal_lengths_panics() {
